@@ -327,6 +327,10 @@ def containing_archive(F, S):
 def check(F, run, tier):
     S = Summaries(F)
     run.declined = DECLINED
+    from ..rules_valid import verifier_arguments
+    _va, _vn = verifier_arguments(F)
+    run.add(_va)
+    run.floor("verifier-arguments", _vn, 30)
     run.explanation = (
         "Static analysis of name lookup and resource resolution: Contains and GetIndex scan the same range with the same "
         "predicate, which is the case-blind path equality on GetName(i) (whose own mirror-normalisation shape and the "
